@@ -81,6 +81,9 @@ WAttr(x)  == {NAttr(x, "a"), NAttr(x, "b"), NAttr(x, "c")}
 WLegacy(x) == {NLegacy(x, 0), NLegacy(x, 2)}
 WSplat(x) ==
     {NSplat(kd, x, ea) : kd \in {"attr", "full"}, ea \in {NAnon, NAttr(NAnon, "a"), NAttr(NAttr(NAnon, "a"), "b")}}
+    \* a legacy index as the LAST step of an attribute-only splat, and in the middle of one
+    \cup {NSplat("attr", x, NLegacy(NAnon, 0)), NSplat("attr", x, NLegacy(NAttr(NAnon, "a"), 0)),
+          NSplat("attr", x, NAttr(NLegacy(NAnon, 2), "a")), NSplat("full", x, NLegacy(NAnon, 0))}
     \cup {NSplat("full", x, NIndex(NAnon, NNum(0))), NSplat("full", x, NIndex(NAttr(NAnon, "a"), StrLit("b")))}
     \cup {NSplat("full", c, NIndex(NAnon, x)) : c \in {NVar("lo"), NVar("t")}}
 WFor(x) ==
@@ -97,6 +100,11 @@ WFor(x) ==
      NFor("group", 1, "v", x, NVar("v"), NVar("k"), NNone)}
     \cup {NFor("tuple", 0, "v", c, NNone, x, NNone) : c \in {NVar("l"), NVar("le"), NVar("o")}}
     \cup {NFor("tuple", 0, "v", c, NNone, NVar("v"), x) : c \in {NVar("l"), NVar("le"), NVar("st")}}
+    \* object-producing and grouping for expressions with a filter
+    \cup {NFor("object", 1, "v", c, NVar("k"), NVar("v"), x) : c \in {NVar("m"), NVar("o")}}
+    \cup {NFor("group", 1, "v", NVar("m"), NVar("v"), NVar("k"), x),
+          NFor("object", 1, "v", x, NVar("k"), NVar("v"), NBin("==", NVar("v"), NVar("n1"))),
+          NFor("object", 1, "v", x, NVar("k"), NVar("v"), NBool(FALSE))}
     \cup {NFor("object", 1, "v", c, x, NVar("v"), NNone) : c \in {NVar("l"), NVar("m")}}
     \cup {NFor("object", 1, "v", c, NVar("k"), x, NNone) : c \in {NVar("m"), NVar("t")}}
 WCall(x) ==
